@@ -426,6 +426,42 @@ def probe_d4():
         return _D4[0]
 
 
+_D7 = []
+
+
+def probe_d7():
+    """Is DEVIATION D7 repaired?  A re-key refused because the destination exists, of a job whose state point file was damaged
+    meanwhile, must leave the handle with a state point that hashes to its id."""
+    with _D3_LOCK:
+        if not _D7:
+            import signac
+            from signac.job import _StatePointDict
+            saved = dict(getattr(_StatePointDict, "_locks", {}))
+            d = tempfile.mkdtemp(prefix="d7probe-", dir=os.environ.get("VERIF_WORK") or ("/dev/shm" if os.path.isdir("/dev/shm") else None))
+            try:
+                p = signac.init_project(d)
+                a = p.open_job({"k": 1, "x": 1}).init()
+                p.open_job({"x": 1}).init()
+                h = p.open_job({"k": 1, "x": 1})
+                h.sp
+                with open(a.fn(SP_FILE), "w") as f:
+                    f.write('{"a": ')
+                try:
+                    del h.sp["k"]
+                except Exception:
+                    pass
+                try:
+                    _D7.append(core.my_id(h.statepoint()) == h.id)
+                except Exception:
+                    _D7.append(True)
+            finally:
+                shutil.rmtree(d, ignore_errors=True)
+                if hasattr(_StatePointDict, "_locks"):
+                    _StatePointDict._locks.clear()
+                    _StatePointDict._locks.update(saved)
+        return _D7[0]
+
+
 def _probe_d3():
     if not _D3:
         import signac
@@ -465,7 +501,7 @@ def mc_cfg(uni, projects, handles, docvals, files, fvals, depth, invariants=(), 
         "Projects": tlc.lit(set(projects)), "Keys": tlc.lit(set(uni.keys)), "Vals": tlc.lit(set(uni.vals)),
         "Handles": tlc.lit(set(handles)), "DocVals": tlc.lit(set(docvals)), "FileNames": tlc.lit(set(files)),
         "FVals": tlc.lit(set(fvals)), "MaxDepth": depth, "IdOrder": "<- IdOrderDef", "Ops": "<- OpsDef",
-        "InitJobs": "<- InitJobsDef", "InitCache": "<- InitCacheDef", "FixedD3": tlc.lit(probe_d3()), "FixedD4": tlc.lit(probe_d4()),
+        "InitJobs": "<- InitJobsDef", "InitCache": "<- InitCacheDef", "FixedD3": tlc.lit(probe_d3()), "FixedD4": tlc.lit(probe_d4()), "FixedD7": tlc.lit(probe_d7()),
     }
     return tlc.cfg(consts, invariants=invariants, properties=properties, constraints=["Depth"], view="View" if view else None)
 
@@ -518,8 +554,37 @@ def compare(step_state, world, res, val, projects):
     return bad
 
 
+class Script(list):
+    """the operations of a behaviour; `.init` = its (non-empty) initial disk state, JSON-able, for replays"""
+    init = None
+
+
+def init_plain(st):
+    pairs = lambda f: [[_plain(k), _plain(v)] for k, v in fdict(f).items()]
+    if not any(fdict(f) for f in st["ws"].values()) and not any(st["cacheEx"].values()):
+        return None
+    return {"ws": {p: pairs(f) for p, f in st["ws"].items()}, "cacheEx": dict(st["cacheEx"]), "cacheF": {p: pairs(f) for p, f in st["cacheF"].items()}}
+
+
+def init_thaw(d):
+    def thaw(v):
+        if isinstance(v, dict):
+            return FrozenDict({k: thaw(x) for k, x in v.items()})
+        if isinstance(v, list):
+            return tuple(thaw(x) for x in v)
+        return v
+    fn = lambda pairs: FrozenDict({thaw(k): thaw(v) for k, v in pairs})
+    return {"ws": {p: fn(x) for p, x in d["ws"].items()}, "cacheEx": d["cacheEx"], "cacheF": {p: fn(x) for p, x in d["cacheF"].items()}}
+
+
+def script_of(states):
+    s = Script(dict(op=st["last"]["op"], args=_plain(st["last"]["args"]), res=st["last"]["res"]) for st in states[1:])
+    s.init = init_plain(states[0])
+    return s
+
+
 def _script(nodes, path):
-    return [dict(op=nodes[n]["last"]["op"], args=_plain(nodes[n]["last"]["args"]), res=nodes[n]["last"]["res"]) for n in path[1:]]
+    return script_of([nodes[n] for n in path])
 
 
 def _plain(v):
